@@ -15,39 +15,57 @@ ID = 'C10'
 MODULE = 'EmsModel.Props.C10'
 DRIVER = 'C10'
 REQUIRED = [
-    'Ems.C10.normalise_encode', 'Ems.C10.start_index_cases', 'Ems.C10.supplied_used',
-    'Ems.C10.edges_spec', 'Ems.C10.face_edge_spec', 'Ems.C10.edge_face_spec',
-    'Ems.C10.face_face_symm', 'Ems.C10.face_face_iff_shared_edge',
+    'Ems.C10.normalise_encode', 'Ems.C10.encoding_independent', 'Ems.C10.start_index_cases',
+    'Ems.C10.supplied_used', 'Ems.C10.supplied_valid_iff', 'Ems.C10.edges_spec', 'Ems.C10.face_pairs_spec',
+    'Ems.C10.face_edge_spec', 'Ems.C10.edge_face_spec', 'Ems.C10.edge_face_rejects_nonmanifold',
+    'Ems.C10.face_face_symm', 'Ems.C10.face_face_iff_shared_edge', 'Ems.C10.derived_tables_consistent',
+    'Ems.C10.derived_topology', 'Ems.C10.topology_all_derived',
+    'Ems.C10.quirk_coords_in_data_vars_violates', 'Ems.C10.quirk_two_dim_guess_violates',
+    'Ems.C10.supplied_face_edge_numbering_not_followed',
 ]
-RULE = ('UGRID datasets built from structured meshes (lattice cut-outs mixing triangles, quads, concave '
-        'pentagons / hexagons / octagons, collinear mid-edge nodes, holes, both windings, shuffled numbering; '
-        'plus tiny special meshes) under the full encoding product {0,1}-based x {NaN floats, integer _FillValue '
-        'attribute, netCDF round trip with the fill value in .encoding, no fill needed} x {normal, transposed} '
-        'x every subset of {edge_node, face_edge, edge_face, face_face} supplied (with a shuffled edge numbering) '
-        'x edge dimension declared / implied / absent, and sampled: start_index spelling, node / face coordinates '
-        'as variables or xarray coordinates, custom dimension names, a malformed stream (bad start_index, wrong '
-        'dimensions, dangling attribute, fill value inside the index range, non-manifold mesh, empty face, '
-        'incomplete edge table). Compared per dataset: face_node_array, edge_node_array, face_edge_array, '
-        'edge_face_array, face_face_array, the five discovered dimension names, the polygon vertex rings and '
-        'the stored face centres. The model is fed the dataset handed to emsarray (generator output); the only '
-        'thing taken from emsarray is the order in which it numbered derived edges, which the model accepts '
-        'only if it is a renumbering of its own derived edge list. A case is non-trivial when the mesh has '
-        '>= 2 faces of different sizes or a non-default encoding; distinct = distinct (mesh, encoding).')
+RULE = ('UGRID datasets built from structured meshes (lattice cut-outs mixing triangles, quads, concave pentagons / '
+        'hexagons / octagons, collinear mid-edge nodes, dropped cells, both windings, shuffled numbering; plus tiny '
+        'special meshes: one triangle, one quad, two quads, uniform quads, a fan round an interior node, an octagon, '
+        'a closed tetrahedron, a ring round a hole) under the FULL encoding product {0,1}-based x {NaN floats, integer '
+        '_FillValue attribute, netCDF round trip with the fill value in .encoding (every 4th in the quick tier), no '
+        'fill needed (uniform / closed meshes)} x {normal, transposed} x every subset of {edge_node, face_edge, '
+        'edge_face, face_face} supplied (with a shuffled edge numbering and mixed pair orientation) x edge dimension '
+        'declared / implied / absent (and declared but absent from the dataset), and sampled: start_index spelling '
+        '(int, numpy int, string, omitted), extra padding columns, face dimension undeclared, integer dtype, custom '
+        'dimension names (incl. a two-dimension not called Two), node / face coordinates as variables or as xarray '
+        'coordinates; plus a malformed stream (bad start_index on each table, wrong dimensions, dangling attribute, '
+        'encoded fill value inside / at the border of / outside the index range, non-manifold mesh, missing '
+        'node_coordinates, incomplete edge table). Compared per dataset, in one line: face_node_array, '
+        'edge_node_array, face_edge_array, edge_face_array, face_face_array (raw, masked cells as "-", exceptions as '
+        'a small enum), the five has_valid_* flags, the five discovered dimension names, the polygon vertex rings '
+        'and the stored face centres. The model is fed the dataset handed to emsarray (generator output, never read '
+        'back from emsarray); the only thing taken from emsarray is the ORDER in which it numbered derived edges, '
+        'which the model accepts only if it is a renumbering of its own derived edge list (the property leaves that '
+        'numbering free). Independently, a brute-force Python oracle states the property on the real outputs against '
+        'the generator\'s faces: identical faces / polygons across encodings, supplied tables returned as given, '
+        'edges = consecutive node pairs each once, face_edge / edge_face / face_face consistent with the node pairs, '
+        'symmetric adjacency, dimension names, stored centres. A case is non-trivial when it is a distinct '
+        '(mesh, encoding, options) combination; the encoding product is enumerated completely (exhaustive).')
 TRUSTED = [
     'numpy masked arrays, numpy.transpose, xarray attribute / encoding / dims / sizes semantics and the netCDF '
     'round trip (modelled by Ems.Mesh.toIndexArray / Ems.Mesh.DS, cross-checked on every generated dataset)',
     'shapely.polygons builds the ring it is given (vertex rings compared exactly)',
+    'the order in which emsarray numbers derived edges is read from emsarray and validated by the model '
+    '(Ems.Mesh.isRenumbering) before use',
 ]
 ASSUMPTIONS = [
     'connectivity values are integers (or integral floats / NaN); node coordinates are integers',
-    'valid meshes: every face has >= 3 distinct nodes, no face repeats an edge, every edge bounds at most two faces '
-    '(explicit decidable hypotheses of the theorems; the malformed stream checks what happens otherwise)',
-    'edge numbering of derived tables and the order of neighbours inside a derived row follow the edge numbering; '
-    'the numbering itself is left free (any renumbering accepted)',
+    'valid meshes for the derived tables: Ems.Mesh.Manifold (every undirected node pair is a side of at most two '
+    'faces, no face uses one twice) — an explicit decidable hypothesis of the theorems; the malformed stream checks '
+    'what happens otherwise (IndexError, modelled)',
+    'a dataset with neither a declared nor an implied edge dimension is outside the quantifier: the derived edge '
+    'tables raise NoEdgeDimensionException (modelled and compared, not judged)',
+    'a dataset that supplies edge_face but neither edge_node nor face_edge does not determine which node pair a '
+    'boundary edge is: joint consistency of edge_face with the derived edge_node is not demanded there',
 ]
-LEVEL_NOTE = ('Joint consistency of the five tables needs one edge numbering; when face_edge is supplied without '
-              'edge_node the derived edge_node table cannot be required to follow the supplied numbering by the '
-              'theorems about make_edge_node_array alone: stated as explicit hypotheses (see face_edge_spec).')
+LEVEL_NOTE = ('normalise_encode, the derived-table specifications and their joint consistency (derived_tables_consistent, '
+              'derived_topology) are proved for all meshes and all edge renumberings; the file / xarray layer '
+              '(attribute lookup, netCDF decoding) is modelled and tied by the correspondence only.')
 
 ARRAYS = ['face_node_array', 'edge_node_array', 'face_edge_array', 'edge_face_array', 'face_face_array']
 KEYS = ['fn', 'en', 'fe', 'ef', 'ff']
@@ -287,19 +305,20 @@ def _oracle(recipe: dict, built: G.Built, obs: Observed, expect_valid: set, foun
     }
     key_of = {'edge_node': 'en', 'face_edge': 'fe', 'edge_face': 'ef', 'face_face': 'ff'}
     two_guess_wrong = has_edge and obs.dims[4] != names['two_dim'] and bool(tables & {'edge_node', 'edge_face'})
+    if two_guess_wrong:
+        fail('ugrid-two-dimension-guess-drops-supplied-edge-table',
+             f'two_dimension = {obs.dims[4]!r} although the supplied edge tables use {names["two_dim"]!r}: '
+             f'they fail their validity test (has_valid flags {obs.hv}) and are not returned')
     for tname in sorted(expect_valid):
         got = obs.tables[key_of[tname]]
         if not has_edge and tname == 'face_edge':
             # a face-edge table in a dataset without any edge dimension: outside the quantifier
             continue
+        if two_guess_wrong and tname in ('edge_node', 'edge_face'):
+            continue
         if got != truth[tname]:
-            if two_guess_wrong and tname in ('edge_node', 'edge_face'):
-                fail('ugrid-two-dimension-guess-drops-supplied-edge-table',
-                     f'two_dimension = {obs.dims[4]!r} although the supplied {tname} table uses {names["two_dim"]!r}; '
-                     f'the supplied table is not returned')
-            else:
-                fail('supplied-table-not-used', f'{tname} supplied as {rows_str(truth[tname])}, '
-                     f'{key_of[tname]} = {rows_str(got) if got is not None else obs.errs[key_of[tname]]}')
+            fail('supplied-table-not-used', f'{tname} supplied as {rows_str(truth[tname])}, '
+                 f'{key_of[tname]} = {rows_str(got) if got is not None else obs.errs[key_of[tname]]}')
     if not has_edge:
         # no edge dimension declared or implied: outside the quantifier of the property
         return
@@ -499,6 +518,13 @@ def run(ctx) -> None:
     items: list = []
     ctx.c10_flagged = []
     start_index_cases(ctx, items)
+    # minimised inputs of past findings: always first
+    import json
+    import pathlib
+    for path in sorted((pathlib.Path(__file__).resolve().parent.parent / 'corpus' / 'c10').glob('*.json')):
+        case = json.loads(path.read_text())
+        one_case(ctx, items, case['recipe'], set(case['expect_valid']), 'corpus')
+        ctx.nontrivial(('corpus', path.name))
     pool = M.mesh_pool(rng, ctx.tier, ctx.budget(5, 30))
     specials = [m for m in pool if not m['name'].startswith('lattice')]
     lattices = [m for m in pool if m['name'].startswith('lattice')]
